@@ -87,6 +87,30 @@ def adapter_cases():
         ("Mapping over Flag", lambda: C.Mapping(C.Flag, {"yes": True, "no": False}), [("yes", "yes"), ("no", "no")]),
         ("Select of adapters", lambda: C.Select(C.OneOf(C.Byte, [1, 2]), C.ExprAdapter(C.Int16ub, obj_ + 1000, obj_ - 1000)), [(1, 1), (2, 2), (2000, 2000), (1000, 1000)]),       # second alternative's first byte is never 1 or 2
     ]
+    # classes outside the term language that the other cases did not reach: Filter, RestreamData, Timestamp (values on the unit grid)
+    cases += [
+        ("Filter(obj_ != 0, Array(3, Byte))", lambda: C.Filter(obj_ != 0, C.Array(3, C.Byte)), [([1, 2, 3], [1, 2, 3]), ([255, 1, 255], [255, 1, 255])]),
+        ("Filter(obj_ > 1, GreedyRange(Int16ub)) in Prefixed", lambda: C.Prefixed(C.Byte, C.Filter(obj_ > 1, C.GreedyRange(C.Int16ub))), [([2, 300], [2, 300]), ([], [])]),
+        ("RestreamData(bytes, Struct)", lambda: C.RestreamData(b"\x07\x08", C.Struct("a" / C.Byte, "b" / C.Byte)), [(None, dict(a=7, b=8))]),
+        ("RestreamData(this.d, Int16ub) in Struct", lambda: C.Struct("d" / C.Bytes(2), "r" / C.RestreamData(this.d, C.Int16ub), "t" / C.Byte),
+         [(dict(d=b"\x01\x02", r=None, t=5), dict(d=b"\x01\x02", r=258, t=5)), (dict(d=b"\xff\xff", t=0), dict(d=b"\xff\xff", r=65535, t=0))]),
+    ]
+    try:
+        import arrow
+        A = arrow.Arrow
+        grid = [A(1980, 1, 1), A(2000, 2, 29, 12, 30, 44), A(2038, 1, 19, 3, 14, 8), A(2040, 12, 31, 23, 59, 58)]
+        cases += [
+            ("Timestamp(Int64ub, 1., 1970)", lambda: C.Timestamp(C.Int64ub, 1., 1970), [(v, v) for v in grid + [A(1970, 1, 1), A(1969, 12, 31, 23, 59, 59)][:1]]),
+            ("Timestamp(Int64sb, 1, 1970)", lambda: C.Timestamp(C.Int64sb, 1, 1970), [(v, v) for v in grid + [A(1969, 12, 31, 23, 59, 59), A(1904, 1, 1)]]),
+            ("Timestamp(Int64ul, 10**-7, 1600)", lambda: C.Timestamp(C.Int64ul, 10 ** -7, 1600), [(v, v) for v in grid + [A(2000, 1, 1, 0, 0, 0, 500000), A(1601, 1, 1)]]),
+            ("Timestamp(Int32ub, 1, 1904)", lambda: C.Timestamp(C.Int32ub, 1, 1904), [(v, v) for v in grid[:3] + [A(1904, 1, 1)]]),
+            ("Timestamp(Int64ub, 10**-3, 1970)", lambda: C.Timestamp(C.Int64ub, 10 ** -3, 1970), [(v, v) for v in grid + [A(2000, 1, 1, 0, 0, 0, 500000), A(2000, 1, 1, 0, 0, 0, 1000)]]),
+            ("Timestamp(Int32ub, 1, Arrow(2000,1,1))", lambda: C.Timestamp(C.Int32ub, 1, A(2000, 1, 1)), [(v, v) for v in grid[1:] + [A(2000, 1, 1)]]),
+            ("Timestamp(Int32ub, msdos)", lambda: C.Timestamp(C.Int32ub, "msdos", "msdos"), [(v, v) for v in grid + [A(2107, 12, 31, 23, 59, 58), A(1999, 12, 31, 0, 0, 2)]]),
+            ("Timestamp in Struct", lambda: C.Struct("n" / C.Byte, "t" / C.Timestamp(C.Int32ul, 1, 1970), "z" / C.Byte), [(dict(n=1, t=v, z=2), dict(n=1, t=v, z=2)) for v in grid[:3]]),
+        ]
+    except ImportError:
+        pass
     def node():
         d = C.Struct("value" / C.Byte, "next" / C.If(this.value > 0, C.LazyBound(lambda: d)))
         return d
